@@ -184,7 +184,9 @@ def c_rest(ctx, it, cfg):
     ctx.prove('nucleation/returns-the-same-record', Y1 is Y)
     for k in BALANCE_FIELDS + ['xEqAlpha', 'xEqBeta']:
         unchanged(ctx, 'nucleation/%s' % k, preY[k], Y.fields[k])
-    ctx.prove('nucleation/thermodynamics-queried-at-the-balance-composition', len(seen) == P and all(and_(*[eq(c[1].get(e) if isinstance(c[1], ArrBase) and c[1].ndim else c[1], comp0[e]) for e in range(E)]) is not False for c in seen))
+    ctx.prove('nucleation/thermodynamics-queried-once-per-phase', len(seen) == P)
+    for k_, c in enumerate(seen):
+        ctx.prove('nucleation/thermodynamics-queried-at-the-balance-composition[query%d]' % k_, and_(*[eq(c[1].get(e) if isinstance(c[1], ArrBase) and c[1].ndim else c[1], comp0[e]) for e in range(E)]))
     frame(ctx, 'nucleation/history', pd, prePD, modifies=[])
     ctx.prove('canary/nucleation-writes-nothing', eq(Y.fields['drivingForce'].get(0, 0), preY['drivingForce'].fn(0, 0)), expect='refuted')
     if E >= 2:
